@@ -76,6 +76,23 @@ pub fn execute(sc: &MuxScenario, skip: Option<&[bool]>, st: &mut Stats) -> MuxOu
     if failed_end {
         st.inc("probe.write_end_failed");
     }
+    // fat-chunk history: one track holds more than 4 MiB of Stamp samples (its chunk stays open
+    // because their durations are far below a second) while other tracks are written too
+    {
+        let mut per_track: std::collections::BTreeMap<u32, u64> = Default::default();
+        for op in &sc.ops {
+            if let Op::Write { track_id, s } = op {
+                if let Payload::Stamp { len, .. } = s.payload {
+                    if len >= 500_000 {
+                        *per_track.entry(*track_id).or_default() += len as u64;
+                    }
+                }
+            }
+        }
+        if per_track.values().any(|b| *b > (4 << 20)) && sc.track_count() > 1 {
+            st.inc("probe.fat_chunk_history");
+        }
+    }
     if sc.ops.iter().zip(run.results[1..].iter()).any(|(op, r)| matches!(op, Op::AddTrack(_)) && matches!(r, CallResult::Err(_))) {
         st.inc("probe.rejected_add_track");
     }
